@@ -523,7 +523,7 @@ def observe_twin(case, x, u, d):
 
 def run_case(case: dict) -> dict:
     rec = dict(case)
-    rec.setdefault("rel", {"kind": "none"})
+    rec.setdefault("rel", {"kind": "none", "has_base": False})
     rec.setdefault("twin", {"expect": "none"})
     rec["obs"] = observe(rec)
     return rec
